@@ -33,7 +33,7 @@ def plan(tier):
         "n_runs": _scale(8000 if quick else 200000),
         "jit_modes": [False] if quick else [False, True],
         "params": params,
-        "watchdog": 120,
+        "watchdog": 300,
         "det_sample": 16 if quick else max(16, _scale(300)),
         "det_rounds": [(12345, 2)] if quick else [(12345, 1), (999, 16)],
         "wall_cap": 900 if quick else 3 * 3600,
